@@ -434,6 +434,11 @@ def history_oracle(ctx):
     allocated again - is checked on histories of those events)."""
     import nv_decomp as nd
     ns = nd.load(ctx.repo)
+    ctx.assume.append("history oracle (gates inside subroutine histories): density matrix over virtual ids 0..2 from a random pure "
+                      "state; init = reset channel; qfree = nothing; qalloc = one fixed non-trivial unitary applied in BOTH the "
+                      "original and the transpiled run (an admissible instance of 'content unspecified after allocation'); gates by "
+                      "the specification matrices of harness/qcommon.py; this family is a direct oracle on the implementation "
+                      "(support for the tie), the theorems are about single-gate expansions")
     n = 150 if ctx.tier == "quick" else 4000
     stats = {}
     for i in range(n):
